@@ -63,7 +63,7 @@ def Spec.vrun (cfg : Cfg M K R) : VState M → List (VOp M K) → List (VRes M) 
 
 structure SState (M R : Type) where
   m : String → Option (Item M)
-  clock : Nat
+  clock : Int
   rng : R
 
 /-- The contents of a model state as a function. -/
@@ -81,7 +81,7 @@ def failOut (c : Code) (idCalls : List String) (created : Nat) : COut M :=
 /-- Store `new` under `id` and announce it. -/
 def Spec.commit (cfg : Cfg M K R) (wr : WriteReq M K) (t : SState M R) (id : String) (old : Option M) (new : M)
     (idCalls : List String) (created : Nat) : COut M × SState M R :=
-  let ev (time : Nat) : CEvent M :=
+  let ev (time : Int) : CEvent M :=
     { id := id, time := time, kind := if old.isNone then .add else .update, old := old, new := some new }
   match wr.writeTime with
   | some w =>
